@@ -25,8 +25,12 @@ is the unconditional form.  Stage 2 (prefix operators in operand position, fragm
 `[ body ]` and `v [ body ]` with a body of that fragment are `C02_parse_block_body` / `C02_parse_block_body_after_value`
 (the subtree under the SideEffect node is the reference tree of the body).  Stage 6a (implicit space lists `a b`,
 `f (x) y`, `a -- b`, fragment `Spec.frag6`) is `C02_parse_correct_fragment_lists`; stage 6b (`,` and infix identifiers
-between two operands, fragment `Spec.frag7`) is `C02_parse_correct_fragment_commas`.  Not done: commas with a missing
-operand (leading / trailing comma), separators (blank lines, `;`).
+between two operands, fragment `Spec.frag7`) is `C02_parse_correct_fragment_commas`; stage 7 (separators, fragment
+`Spec.frag8`) is `C02_parse_correct_fragment_separators`; stage 8 (commas / infix identifiers with a missing operand,
+`Spec.frag9`) is `C02_parse_correct_fragment_optional`; `C04_parse_proper_refgrammar` / `C04_parse_proper_refgrammar9`
+are the C04 parser half on the final fragment.  Side-effect blocks as the right operand of an operator:
+`C02_parse_block_as_operand` (`e op [ body ]`) and `C02_parse_block_then_value` (`e op [ body ] v`, the `last_left` jump:
+the block ends up as the LEFT child of `v`).
 -/
 import Garnish.Lemmas.ParserFrag5
 import Garnish.Lemmas.ParserAccept2
@@ -34,6 +38,9 @@ import Garnish.Lemmas.ParserPrefix5
 import Garnish.Lemmas.ParserSuffix5
 import Garnish.Lemmas.ParserB14
 import Garnish.Lemmas.RefParseShift
+import Garnish.Lemmas.ParserB28
+import Garnish.Lemmas.ParserB29
+import Garnish.Lemmas.ParserB30
 import Garnish.Lemmas.RefParseInorder
 import Garnish.Lemmas.RefParseUnique
 import Garnish.Props.C02
@@ -249,7 +256,7 @@ theorem C02_treeToRG_eq_treeToR (r : ParseResult) (t : Tree)
     tree -/
 theorem C02_parse_correct_fragment_groups (toks : List PToken) (hf : frag5 toks = true) (hnum : NumberedFrom 0 toks) :
     ∃ r t, parse toks = .ok r ∧ toTree r = some t ∧ refParse Table.gen toks = .ok (treeToRG r t) := by
-  obtain ⟨r, t, h1, h2, h3⟩ := parse_frag5 toks hf hnum
+  obtain ⟨r, t, h1, h2, h3⟩ := parse_fragF toks hf hnum
   exact ⟨r, t, h1, h2, by rw [← C02_toRG_eq_treeToRG]; exact h3⟩
 
 theorem C02_parse_fragment_groups_precOK_inorder (toks : List PToken) (hf : frag5 toks = true)
@@ -299,42 +306,41 @@ tokens alone, counting positions from where the body starts in the program (`ref
 first token of the body the child of the SideEffect node (`openB_stepSE`: `next_parent = last_left`); `]` restores the list
 flag saved on the group stack (`side_body`: `check_for_list` after the block = before the block). -/
 
-/-- **`[ body ]`** with a body of the fragment (`fragL L C`: frag5 = `fragL false false`, frag6 = `fragL true false`,
-    frag7 = `fragL true true`): accepted, the root is the SideEffect node (token 0) without left child,
+/-- **`[ body ]`** with a body of the fragment (`fragF F` for any feature set `F`: frag5 .. frag8): accepted, the root is the SideEffect node (token 0) without left child,
     and the subtree under it is the reference tree of the body -/
 theorem C02_parse_block_body (o c : PToken) (wsA wsB body : List PToken) (ho : o.type = .startSideEffect)
-    (hc : c.type = .endSideEffect) {L C : Bool} (hbody : fragL L C body = true) (hwA : ∀ w ∈ wsA, isTriviaTok w = true)
+    (hc : c.type = .endSideEffect) {F : Fl} (hbody : fragF F body = true) (hwA : ∀ w ∈ wsA, isTriviaTok w = true)
     (hwB : ∀ w ∈ wsB, isTriviaTok w = true) (hnum : NumberedFrom 0 (o :: (wsA ++ (body ++ (wsB ++ [c]))))) :
     ∃ r t, parse (o :: (wsA ++ (body ++ (wsB ++ [c])))) = .ok r ∧ toTree r = some (.node .nil 0 o.col t) ∧
       dfOf r.nodes 0 = .sideEffect ∧
       refLoop Table.gen Frame.top [] (1 + wsA.length) body = .ok (treeToRG r t) := by
-  obtain ⟨e, hok, rfl⟩ := fragL_sound hbody
+  obtain ⟨e, hok, rfl⟩ := fragF_sound hbody
   obtain ⟨r, t, h1, h2, h3, h4⟩ := parse_block o c wsA wsB e ho hc hok hwA hwB hnum
   exact ⟨r, t, h1, h2, h3, by rw [← C02_toRG_eq_treeToRG]; exact h4⟩
 
 /-- **`v [ body ]`** (a value, optional trivia, a block): accepted, the root is the value node (token 0), its right child is
     the SideEffect node (node 1) without left child, and the subtree under that is the reference tree of the body -/
 theorem C02_parse_block_body_after_value (v o c : PToken) (ws wsA wsB body : List PToken) (hv : isAtom10 v = true)
-    (ho : o.type = .startSideEffect) (hc : c.type = .endSideEffect) {L C : Bool} (hbody : fragL L C body = true)
+    (ho : o.type = .startSideEffect) (hc : c.type = .endSideEffect) {F : Fl} (hbody : fragF F body = true)
     (hws : ∀ w ∈ ws, isTriviaTok w = true) (hwA : ∀ w ∈ wsA, isTriviaTok w = true)
     (hwB : ∀ w ∈ wsB, isTriviaTok w = true)
     (hnum : NumberedFrom 0 (v :: (ws ++ (o :: (wsA ++ (body ++ (wsB ++ [c]))))))) :
     ∃ r t, parse (v :: (ws ++ (o :: (wsA ++ (body ++ (wsB ++ [c])))))) = .ok r ∧
       toTree r = some (.node .nil 0 v.col (.node .nil 1 o.col t)) ∧ dfOf r.nodes 1 = .sideEffect ∧
       refLoop Table.gen Frame.top [] (1 + ws.length + 1 + wsA.length) body = .ok (treeToRG r t) := by
-  obtain ⟨e, hok, rfl⟩ := fragL_sound hbody
+  obtain ⟨e, hok, rfl⟩ := fragF_sound hbody
   obtain ⟨r, t, h1, h2, h3, h4⟩ := parse_value_block v o c ws wsA wsB e hv ho hc hok hws hwA hwB hnum
   exact ⟨r, t, h1, h2, h3, by rw [← C02_toRG_eq_treeToRG]; exact h4⟩
 
 /-- the same against `refParse` of the body: the subtree under the SideEffect node is the reference tree of the body with
     all positions shifted by the offset of the body in the program (the `shift` of the block-body check) -/
 theorem C02_parse_block_body_refParse (o c : PToken) (wsA wsB body : List PToken) (ho : o.type = .startSideEffect)
-    (hc : c.type = .endSideEffect) {L C : Bool} (hbody : fragL L C body = true) (hwA : ∀ w ∈ wsA, isTriviaTok w = true)
+    (hc : c.type = .endSideEffect) {F : Fl} (hbody : fragF F body = true) (hwA : ∀ w ∈ wsA, isTriviaTok w = true)
     (hwB : ∀ w ∈ wsB, isTriviaTok w = true) (hnum : NumberedFrom 0 (o :: (wsA ++ (body ++ (wsB ++ [c]))))) :
     ∃ r t rt, parse (o :: (wsA ++ (body ++ (wsB ++ [c])))) = .ok r ∧ toTree r = some (.node .nil 0 o.col t) ∧
       dfOf r.nodes 0 = .sideEffect ∧ refParse Table.gen body = .ok rt ∧ treeToRG r t = rt.shift (1 + wsA.length) := by
   obtain ⟨r, t, h1, h2, h3, h4⟩ := C02_parse_block_body o c wsA wsB body ho hc hbody hwA hwB hnum
-  obtain ⟨e, hok, rfl⟩ := fragL_sound hbody
+  obtain ⟨e, hok, rfl⟩ := fragF_sound hbody
   rw [refLoop_top_shift, ← refParse_ex e hok] at h4
   cases hr : refParse Table.gen e.toks with
   | ok rt =>
@@ -346,15 +352,15 @@ theorem C02_parse_block_body_refParse (o c : PToken) (wsA wsB body : List PToken
   | fuelOut => rw [hr] at h4; cases h4
 
 theorem C02_parse_block_body_after_value_refParse (v o c : PToken) (ws wsA wsB body : List PToken)
-    (hv : isAtom10 v = true) (ho : o.type = .startSideEffect) (hc : c.type = .endSideEffect) {L C : Bool}
-    (hbody : fragL L C body = true) (hws : ∀ w ∈ ws, isTriviaTok w = true) (hwA : ∀ w ∈ wsA, isTriviaTok w = true)
+    (hv : isAtom10 v = true) (ho : o.type = .startSideEffect) (hc : c.type = .endSideEffect) {F : Fl}
+    (hbody : fragF F body = true) (hws : ∀ w ∈ ws, isTriviaTok w = true) (hwA : ∀ w ∈ wsA, isTriviaTok w = true)
     (hwB : ∀ w ∈ wsB, isTriviaTok w = true)
     (hnum : NumberedFrom 0 (v :: (ws ++ (o :: (wsA ++ (body ++ (wsB ++ [c]))))))) :
     ∃ r t rt, parse (v :: (ws ++ (o :: (wsA ++ (body ++ (wsB ++ [c])))))) = .ok r ∧
       toTree r = some (.node .nil 0 v.col (.node .nil 1 o.col t)) ∧ dfOf r.nodes 1 = .sideEffect ∧
       refParse Table.gen body = .ok rt ∧ treeToRG r t = rt.shift (1 + ws.length + 1 + wsA.length) := by
   obtain ⟨r, t, h1, h2, h3, h4⟩ := C02_parse_block_body_after_value v o c ws wsA wsB body hv ho hc hbody hws hwA hwB hnum
-  obtain ⟨e, hok, rfl⟩ := fragL_sound hbody
+  obtain ⟨e, hok, rfl⟩ := fragF_sound hbody
   rw [refLoop_top_shift, ← refParse_ex e hok] at h4
   cases hr : refParse Table.gen e.toks with
   | ok rt =>
@@ -392,7 +398,7 @@ The reference parser does the same in `beforeOperand` (`ref_list_head`).  Proofs
 /-- **stage 6a, unconditional**: groups, nested expressions and implicit space lists -/
 theorem C02_parse_correct_fragment_lists (toks : List PToken) (hf : frag6 toks = true) (hnum : NumberedFrom 0 toks) :
     ∃ r t, parse toks = .ok r ∧ toTree r = some t ∧ refParse Table.gen toks = .ok (treeToRG r t) := by
-  obtain ⟨r, t, h1, h2, h3⟩ := parse_frag6 toks hf hnum
+  obtain ⟨r, t, h1, h2, h3⟩ := parse_fragF toks hf hnum
   exact ⟨r, t, h1, h2, by rw [← C02_toRG_eq_treeToRG]; exact h3⟩
 
 theorem C02_parse_fragment_lists_precOK_inorder (toks : List PToken) (hf : frag6 toks = true)
@@ -438,7 +444,7 @@ them in the same arm as left-to-right binary operators; the reference parser rem
 /-- **stage 6b, unconditional** -/
 theorem C02_parse_correct_fragment_commas (toks : List PToken) (hf : frag7 toks = true) (hnum : NumberedFrom 0 toks) :
     ∃ r t, parse toks = .ok r ∧ toTree r = some t ∧ refParse Table.gen toks = .ok (treeToRG r t) := by
-  obtain ⟨r, t, h1, h2, h3⟩ := parse_frag7 toks hf hnum
+  obtain ⟨r, t, h1, h2, h3⟩ := parse_fragF toks hf hnum
   exact ⟨r, t, h1, h2, by rw [← C02_toRG_eq_treeToRG]; exact h3⟩
 
 theorem C02_parse_fragment_commas_precOK_inorder (toks : List PToken) (hf : frag7 toks = true)
@@ -463,5 +469,227 @@ theorem ex7_in_fragment : frag7 ex7 = true ∧ frag6 ex7 = false := by decide
 theorem ex7_numbered : NumberedFrom 0 ex7 := by simp [ex7, NumberedFrom, tk]
 theorem ex7_accepted : (parse ex7).isOk = true := by decide
 theorem ex6_in_frag7 : frag7 ex6 = true ∧ frag7 ex5 = true := by decide
+
+/-! ### stage 7: separators
+
+Fragment `Spec.frag8` (decidable) = frag7 plus blank-line `Subexpression` tokens and `;`:
+  * between two expressions at top level and inside `{ }`:  `expr trivia* separator (trivia | separator)* operand ..` — the
+    first separator is a binary operator of priority 1000 / 990 (`step_sep_op`), further separators are dropped
+    (`step_sep_skipB`: `last_left` is a separator node);
+  * directly after `{`: dropped (`last_left` is the bracket that opened the frame), directly after `(`: whitespace;
+  * inside `( )`: whitespace — `setup_space_list_check(.., under_group)`: after an operand it starts an implicit list,
+    before `)` it does nothing (`step_fillU`, `fill_runU`);
+  * a blank line before `}`: the separator node is inserted and unlinked again by the EndGrouping arm
+    (`step_close_unlink`; the node stays in the array, unreachable — the invariants tolerate such ids, `SortedIn`).
+The reference parser has all of this (`ref_sep_stepK`, `ref_sep_skipK`, `ref_sep_trailK`).  Trailing `;` before a closer
+or at the end, separators after an operator, and separators inside `[ ]` directly after `[` are outside the reference
+grammar.  Proofs: Lemmas/ParserB19 .. ParserB24. -/
+
+/-- **stage 7, unconditional** -/
+theorem C02_parse_correct_fragment_separators (toks : List PToken) (hf : frag8 toks = true)
+    (hnum : NumberedFrom 0 toks) :
+    ∃ r t, parse toks = .ok r ∧ toTree r = some t ∧ refParse Table.gen toks = .ok (treeToRG r t) := by
+  obtain ⟨r, t, h1, h2, h3⟩ := parse_fragF toks hf hnum
+  exact ⟨r, t, h1, h2, by rw [← C02_toRG_eq_treeToRG]; exact h3⟩
+
+theorem C02_parse_fragment_separators_precOK_inorder (toks : List PToken) (hf : frag8 toks = true)
+    (hnum : NumberedFrom 0 toks) :
+    ∃ r t, parse toks = .ok r ∧ toTree r = some t ∧ ProperTree r ∧ PrecOK Table.gen Table.gen.rtl (treeToRG r t) ∧
+      (treeToRG r t).inorderSig = significant toks := by
+  obtain ⟨r, t, h0, h1, h2⟩ := C02_parse_correct_fragment_separators toks hf hnum
+  exact ⟨r, t, h0, h1, ⟨t, (toTree_some_iff r t).mp h1⟩, Garnish.Props.C02.C02_refParse_precOK_gen toks _ h2,
+    refParse_inorder toks _ h2⟩
+
+/-- **C04, parser half, for every token list of the final fragment** (a corollary of the stage theorems): `parse` returns
+    a proper tree whose in-order walk is exactly the significant tokens in source order -/
+theorem C04_parse_proper_refgrammar (toks : List PToken) (hf : frag8 toks = true) (hnum : NumberedFrom 0 toks) :
+    ∃ r t, parse toks = .ok r ∧ properTree r = true ∧ ProperTree r ∧ toTree r = some t ∧
+      (treeToRG r t).inorderSig = significant toks := by
+  obtain ⟨r, t, h0, h1, h2, _, h4⟩ := C02_parse_fragment_separators_precOK_inorder toks hf hnum
+  exact ⟨r, t, h0, by simp [properTree, h1], h2, h1, h4⟩
+
+/-- two expressions and a nested expression with leading, doubled and trailing separators, a group with a line break used
+    as list whitespace, `;` against blank line (990 / 1000):
+
+      a + 1 <blank> b = { <blank> x <blank> <blank> y ; z <blank> } ; (f <blank> 2) -/
+def ex8 : List PToken :=
+  [tk .identifier "a" 0, tk .plusSign "+" 1, tk .number "1" 2, tk .subexpression "\n\n" 3, tk .identifier "b" 4,
+   tk .whitespace " " 5, tk .pair "=" 6, tk .whitespace " " 7, tk .startExpression "{" 8, tk .subexpression "\n\n" 9,
+   tk .identifier "x" 10, tk .subexpression "\n\n" 11, tk .subexpression "\n\n" 12, tk .identifier "y" 13,
+   tk .whitespace " " 14, tk .expressionSeparator ";" 15, tk .whitespace " " 16, tk .identifier "z" 17,
+   tk .subexpression "\n\n" 18, tk .endExpression "}" 19, tk .whitespace " " 20, tk .expressionSeparator ";" 21,
+   tk .whitespace " " 22, tk .startGroup "(" 23, tk .identifier "f" 24, tk .subexpression "\n\n" 25, tk .number "2" 26,
+   tk .endGroup ")" 27]
+
+theorem ex8_in_fragment : frag8 ex8 = true ∧ frag7 ex8 = false := by decide
+theorem ex8_numbered : NumberedFrom 0 ex8 := by simp [ex8, NumberedFrom, tk]
+theorem ex8_accepted : (parse ex8).isOk = true := by decide
+theorem ex7_in_frag8 : frag8 ex7 = true ∧ frag8 ex6 = true ∧ frag8 ex5 = true := by decide
+
+/-- `{ a <blank> }`: the trailing blank line leaves no node in the tree, `a <blank> b`: the blank line is the root -/
+def exTrail : List PToken :=
+  [tk .startExpression "{" 0, tk .identifier "a" 1, tk .subexpression "\n\n" 2, tk .endExpression "}" 3]
+theorem exTrail_in_fragment : frag8 exTrail = true := by decide
+theorem exTrail_tree : refParse Table.gen exTrail = .ok (.group .nestedExpression 0 (.node .nil .identifier 1 .nil)) := by
+  rfl
+
+/-! ### stage 8: `,` and infix identifiers with a missing operand
+
+`Spec.frag9 toks` = `frag8 toks` (which now also contains the two bracket-level forms) or `expr trivia* ,` at the very end:
+  * **leading** `,` / infix identifier as the first token of a frame's expression (top level, after `(` / `{` and the
+    trivia / separators that may follow it): `parse_token` starts at the bracket that opened the frame, stops there at
+    once (`is_our_group`), `parent == true_left` unsets the left operand — the node is pushed like a prefix operator
+    (`expr_lead`);
+  * **trailing** `,` before `)` / `}`: the comma is processed like a binary operator, its `right` points to the next id;
+    the EndGrouping arm finds `last_left` to be `is_optional` and resets `right` (`step_close_opt`, `opd_bracket_comma`);
+  * **trailing** `,` as the very last token: `assumed_right = None` (`parse_ex_comma`).
+An infix identifier without right operand is NOT in the fragment: it is not `is_optional`, so its `right` stays dangling
+(the reference grammar accepts it; this is outside what `parse` handles properly).  Comma directly before a separator
+and a leading comma after a separator are not covered.  Proofs: Lemmas/ParserB25 .. ParserB28. -/
+
+/-- the final fragment -/
+def frag9 (toks : List PToken) : Bool := frag8 toks || fragTC ⟨true, true, true⟩ toks
+
+/-- **stage 8, unconditional** -/
+theorem C02_parse_correct_fragment_optional (toks : List PToken) (hf : frag9 toks = true) (hnum : NumberedFrom 0 toks) :
+    ∃ r t, parse toks = .ok r ∧ toTree r = some t ∧ refParse Table.gen toks = .ok (treeToRG r t) := by
+  unfold frag9 at hf
+  rcases Bool.or_eq_true _ _ |>.mp hf with h | h
+  · exact C02_parse_correct_fragment_separators toks h hnum
+  · obtain ⟨e, ws1, k, hok, hw1, hk, rfl⟩ := fragTC_sound h
+    obtain ⟨r, t, h1, h2, h3⟩ := parse_ex_comma e hok ws1 k hw1 hk hnum
+    exact ⟨r, t, h1, h2, by rw [← C02_toRG_eq_treeToRG]; exact h3⟩
+
+theorem C02_parse_fragment_optional_precOK_inorder (toks : List PToken) (hf : frag9 toks = true)
+    (hnum : NumberedFrom 0 toks) :
+    ∃ r t, parse toks = .ok r ∧ toTree r = some t ∧ ProperTree r ∧ PrecOK Table.gen Table.gen.rtl (treeToRG r t) ∧
+      (treeToRG r t).inorderSig = significant toks := by
+  obtain ⟨r, t, h0, h1, h2⟩ := C02_parse_correct_fragment_optional toks hf hnum
+  exact ⟨r, t, h0, h1, ⟨t, (toTree_some_iff r t).mp h1⟩, Garnish.Props.C02.C02_refParse_precOK_gen toks _ h2,
+    refParse_inorder toks _ h2⟩
+
+/-- **C04, parser half, on the final fragment** -/
+theorem C04_parse_proper_refgrammar9 (toks : List PToken) (hf : frag9 toks = true) (hnum : NumberedFrom 0 toks) :
+    ∃ r t, parse toks = .ok r ∧ properTree r = true ∧ ProperTree r ∧ toTree r = some t ∧
+      (treeToRG r t).inorderSig = significant toks := by
+  obtain ⟨r, t, h0, h1, h2, _, h4⟩ := C02_parse_fragment_optional_precOK_inorder toks hf hnum
+  exact ⟨r, t, h0, by simp [properTree, h1], h2, h1, h4⟩
+
+/-- `(, a b, c,) + {`f` x} ,`: a leading comma, a trailing comma before `)`, a leading infix identifier, and a trailing
+    comma at the very end -/
+def ex9 : List PToken :=
+  [tk .startGroup "(" 0, tk .comma "," 1, tk .whitespace " " 2, tk .identifier "a" 3, tk .whitespace " " 4,
+   tk .identifier "b" 5, tk .comma "," 6, tk .whitespace " " 7, tk .identifier "c" 8, tk .comma "," 9, tk .endGroup ")" 10,
+   tk .whitespace " " 11, tk .plusSign "+" 12, tk .whitespace " " 13, tk .startExpression "{" 14,
+   tk .infixIdentifier "`f`" 15, tk .whitespace " " 16, tk .identifier "x" 17, tk .endExpression "}" 18,
+   tk .whitespace " " 19, tk .comma "," 20]
+
+theorem ex9_in_fragment : frag9 ex9 = true ∧ frag8 ex9 = false := by decide
+theorem ex9_numbered : NumberedFrom 0 ex9 := by simp [ex9, NumberedFrom, tk]
+theorem ex9_accepted : (parse ex9).isOk = true := by decide
+theorem ex8_in_frag9 : frag9 ex8 = true := by decide
+
+/-- `( a , )`: the comma has a left operand only -/
+def exTrailComma : List PToken :=
+  [tk .startGroup "(" 0, tk .identifier "a" 1, tk .whitespace " " 2, tk .comma "," 3, tk .whitespace " " 4,
+   tk .endGroup ")" 5]
+theorem exTrailComma_in_fragment : frag8 exTrailComma = true := by decide
+theorem exTrailComma_tree : refParse Table.gen exTrailComma =
+    .ok (.group .group 0 (.node (.node .nil .identifier 1 .nil) .commaList 3 .nil)) := by
+  rfl
+
+/-! ### side-effect blocks in operand position
+
+`e op [ body ]`: the block is the right operand of a binary operator.  `[` goes through `parse_token` with priority 5
+and `left = last_left` = the operator node; every operator binds looser than 5, so the walk stops at once: the
+SideEffect node becomes the operator's right child and has no left operand (`parse_op_block`).  Side effects are outside
+the reference grammar, so the statement composes the reference trees of `e` and of the body: the result is
+`attach op (tree of e)` with the block `(SideEffect k - body)` plugged in as the operand. -/
+
+theorem C02_parse_block_as_operand {F : Fl} (etoks body : List PToken) (op o c : PToken)
+    (ws1 ws2 wsA wsB : List PToken) (he : fragF F etoks = true) (hb : fragF F body = true) (hop : isBin3Tok op = true)
+    (ho : o.type = .startSideEffect) (hc : c.type = .endSideEffect) (hw1 : ∀ w ∈ ws1, isTriviaTok w = true)
+    (hw2 : ∀ w ∈ ws2, isTriviaTok w = true) (hwA : ∀ w ∈ wsA, isTriviaTok w = true)
+    (hwB : ∀ w ∈ wsB, isTriviaTok w = true)
+    (hnum : NumberedFrom 0 (etoks ++ (ws1 ++ (op :: (ws2 ++ (o :: (wsA ++ (body ++ (wsB ++ [c]))))))))) :
+    ∃ r t te tb q, parse (etoks ++ (ws1 ++ (op :: (ws2 ++ (o :: (wsA ++ (body ++ (wsB ++ [c])))))))) = .ok r ∧
+      toTree r = some t ∧ refParse Table.gen etoks = .ok te ∧ refParse Table.gen body = .ok tb ∧
+      priority (getDefinition op.type).1 = some q ∧
+      treeToRG r t =
+        plug (attach Table.gen q ((getDefinition op.type).2 == .binaryRightToLeft) (getDefinition op.type).1
+            (etoks.length + ws1.length) te)
+          (.node .nil .sideEffect (etoks.length + ws1.length + 1 + ws2.length)
+            (tb.shift (etoks.length + ws1.length + 1 + ws2.length + 1 + wsA.length))) := by
+  obtain ⟨e, hok, rfl⟩ := fragF_sound he
+  obtain ⟨bd, hbok, rfl⟩ := fragF_sound hb
+  obtain ⟨r, t, te, tb, q, h1, h2, h3, h4, h5, h6⟩ := parse_op_block e bd op o c ws1 ws2 wsA wsB hok hbok hop ho hc hw1 hw2
+    hwA hwB hnum
+  exact ⟨r, t, te, tb, q, h1, h2, h3, h4, h5, by rw [← C02_toRG_eq_treeToRG]; exact h6⟩
+
+/-- `a * 2 + [b c]` -/
+def exOpBlock : List PToken :=
+  [tk .identifier "a" 0, tk .multiplicationSign "*" 1, tk .number "2" 2] ++
+    ([tk .whitespace " " 3] ++ (tk .plusSign "+" 4 :: ([tk .whitespace " " 5] ++ (tk .startSideEffect "[" 6 ::
+      ([] ++ ([tk .identifier "b" 7, tk .whitespace " " 8, tk .identifier "c" 9] ++ ([] ++ [tk .endSideEffect "]" 10])))))))
+theorem exOpBlock_parts : frag8 [tk .identifier "a" 0, tk .multiplicationSign "*" 1, tk .number "2" 2] = true ∧
+    frag8 [tk .identifier "b" 7, tk .whitespace " " 8, tk .identifier "c" 9] = true := by decide
+theorem exOpBlock_numbered : NumberedFrom 0 exOpBlock := by simp [exOpBlock, NumberedFrom, tk]
+theorem exOpBlock_accepted : (parse exOpBlock).isOk = true := by decide
+
+/-! ### `e op [ body ] v` — the `last_left` jump
+
+After `]` the parser's `last_left` is the SideEffect node; on the next token it jumps to that node's parent (the
+operator).  The value `v` is then attached as the operator's right child and the block — the operator's previous right
+child — is handed to `v` as its LEFT operand.  Statement: the tree is `attach op (tree of e)` with the operand
+`v`-node-with-left-child-block plugged in; `dv` is the definition stored for `v` (Property after `.`). -/
+
+theorem C02_parse_block_then_value {F : Fl} (etoks body : List PToken) (op o c v : PToken)
+    (ws1 ws2 wsA wsB ws3 : List PToken) (he : fragF F etoks = true) (hb : fragF F body = true)
+    (hop : isBin3Tok op = true) (ho : o.type = .startSideEffect) (hc : c.type = .endSideEffect)
+    (hv : isAtom10 v = true) (hw1 : ∀ w ∈ ws1, isTriviaTok w = true)
+    (hw2 : ∀ w ∈ ws2, isTriviaTok w = true) (hwA : ∀ w ∈ wsA, isTriviaTok w = true)
+    (hwB : ∀ w ∈ wsB, isTriviaTok w = true) (hw3 : ∀ w ∈ ws3, isTriviaTok w = true)
+    (hnum : NumberedFrom 0
+      (etoks ++ (ws1 ++ (op :: (ws2 ++ (o :: (wsA ++ (body ++ (wsB ++ (c :: (ws3 ++ [v]))))))))))) :
+    ∃ r t te tb q,
+      parse (etoks ++ (ws1 ++ (op :: (ws2 ++ (o :: (wsA ++ (body ++ (wsB ++ (c :: (ws3 ++ [v])))))))))) = .ok r ∧
+      toTree r = some t ∧ refParse Table.gen etoks = .ok te ∧ refParse Table.gen body = .ok tb ∧
+      priority (getDefinition op.type).1 = some q ∧
+      treeToRG r t =
+        plug (attach Table.gen q ((getDefinition op.type).2 == .binaryRightToLeft) (getDefinition op.type).1
+            (etoks.length + ws1.length) te)
+          (.node
+            (.node .nil .sideEffect (etoks.length + ws1.length + 1 + ws2.length)
+              (tb.shift (etoks.length + ws1.length + 1 + ws2.length + 1 + wsA.length)))
+            (underDef (getDefinition op.type).1 (getDefinition v.type).1)
+            (etoks.length + ws1.length + 1 + ws2.length + 1 + wsA.length + body.length + wsB.length + 1 + ws3.length)
+            .nil) := by
+  obtain ⟨e, hok, rfl⟩ := fragF_sound he
+  obtain ⟨bd, hbok, rfl⟩ := fragF_sound hb
+  obtain ⟨r, t, te, tb, q, dv, h1, h2, h3, h4, h5, h6, h7⟩ := parse_op_block_value e bd op o c v ws1 ws2 wsA wsB ws3 hok
+    hbok hop ho hc hv hw1 hw2 hwA hwB hw3 hnum
+  subst h7
+  exact ⟨r, t, te, tb, q, h1, h2, h3, h4, h5, by rw [← C02_toRG_eq_treeToRG]; exact h6⟩
+
+/-- `a + [b c] d` -/
+def exBlockVal : List PToken :=
+  [tk .identifier "a" 0] ++
+    ([tk .whitespace " " 1] ++ (tk .plusSign "+" 2 :: ([tk .whitespace " " 3] ++ (tk .startSideEffect "[" 4 ::
+      ([] ++ ([tk .identifier "b" 5, tk .whitespace " " 6, tk .identifier "c" 7] ++ ([] ++ (tk .endSideEffect "]" 8 ::
+        ([tk .whitespace " " 9] ++ [tk .identifier "d" 10])))))))))
+theorem exBlockVal_parts : frag8 [tk .identifier "a" 0] = true ∧
+    frag8 [tk .identifier "b" 5, tk .whitespace " " 6, tk .identifier "c" 7] = true ∧
+    isBin3Tok (tk .plusSign "+" 2) = true ∧ isAtom10 (tk .identifier "d" 10) = true := by decide
+theorem exBlockVal_numbered : NumberedFrom 0 exBlockVal := by simp [exBlockVal, NumberedFrom, tk]
+theorem exBlockVal_accepted : (parse exBlockVal).isOk = true := by decide
+/-- node ids (trivia make no nodes): `a`=0, `+`=1, `[`=2, `b`=3, list=4, `c`=5, `d`=6.  The value `d` is the right child of
+    `+` and the SideEffect node is the LEFT child of `d`. -/
+theorem exBlockVal_shape :
+    (match parse exBlockVal with
+     | .ok r => (r.nodes[1]?.map (fun (n : ParseNode) => n.right),
+                 r.nodes[6]?.map (fun (n : ParseNode) => (n.parent, n.left)),
+                 r.nodes[2]?.map (fun (n : ParseNode) => (n.definition, n.parent)))
+     | _ => (none, none, none)) =
+    (some (some 6), some (some 1, some 2), some (Definition.sideEffect, some 6)) := by decide
 
 end Garnish.Props.C02Parse
